@@ -82,8 +82,20 @@ def counters(res, rnd, thorough, broken_model):
     for T in ((4, 8, 16) if thorough else (4, 16)):
         cases.append(("add", T, 40000 if thorough else 10000, [1] * T, 0))
         cases.append(("xor", T, 20001, [rnd.choice([1, 255, MAX]) for _ in range(T)], 7))
+    # `+= 1` next to assignments that leave the value as it is but go through the fallible path
+    # (`/= 1`, `%= M`, `**= 1`, `<<= 0`, `>>= 0`): every increment must survive
+    for idop, idc in (("div", 1), ("mod", 10**15), ("pow", 1), ("shl", 0), ("shr", 0)):
+        for T in ((4, 8) if thorough else (4,)):
+            cases.append(("id:" + idop, T, 20000 if thorough else 6000, [idc], 0))
     lines, reqs = [], []
     for op, T, iters, consts, init in cases:
+        if op.startswith("id:"):
+            half = T // 2
+            setup = "m := mut 0; " + " ".join("w%d := () -> int { return m += 1; };" % i for i in range(half)) + " " + \
+                " ".join("w%d := () -> int { return m %s %s; };" % (i, OPS[op[3:]], lit(consts[0])) for i in range(half, T))
+            lines.append("threads\t\t%s\t%d\tm\t%s\t%s" % (",".join("w%d" % i for i in range(T)), iters, rnd.choice(["code", "fn"]), esc_field(setup)))
+            reqs.append(None)
+            continue
         setup = "m := mut %s; " % lit(init) + " ".join(
             "w%d := () -> int { return m %s %s; };" % (i, OPS[op], lit(c)) for i, c in enumerate(consts))
         lines.append("threads\t\t%s\t%d\tm\t%s\t%s" % (",".join("w%d" % i for i in range(T)), iters, rnd.choice(["code", "fn"]), esc_field(setup)))
@@ -97,11 +109,13 @@ def counters(res, rnd, thorough, broken_model):
     for (op, T, iters, consts, init), line, req in zip(cases, out, reqs):
         res.evaluations += 1
         res.count("counters:" + op)
+        if op.startswith("id:") and line.startswith("(threads"):
+            pass
         res.nontrivial.add("counter:%s:%d:%d:%s" % (op, T, iters, consts))
         rep = dict(request=lines[cases.index((op, T, iters, consts, init))], impl=line[:600])
         r = parse_threads(line)
         if r is None or any("panic" in sexp_str(t) for t in r["threads"]):
-            bad_line(res, line, "%d threads doing `m %s c` %d times each did not all finish" % (T, OPS[op], iters), rep, "deadlock" if "deadlock" in line else "panic")
+            bad_line(res, line, "%d threads doing `m %s c` %d times each did not all finish" % (T, OPS.get(op, op), iters), rep, "deadlock" if "deadlock" in line else "panic")
             continue
         if req is not None:
             want = None
@@ -113,7 +127,9 @@ def counters(res, rnd, thorough, broken_model):
             want = None
         # closed form, independent of the model
         v = init
-        if op == "add":
+        if op.startswith("id:"):
+            v = (T // 2) * iters
+        elif op == "add":
             v = wrap(init + iters * sum(consts))
         elif op == "sub":
             v = wrap(init - iters * sum(consts))
@@ -137,8 +153,10 @@ def counters(res, rnd, thorough, broken_model):
         if want is not None and want != closed:
             res.broken.append("correspondence:conc-seq %s x%d: model %s closed form %s" % (op, iters, want, closed))
         if got != closed:
-            res.violation("%d threads x %d times `m %s c` (c = %s) from %d: final m = %s, every sequential order gives %s (updates were lost or torn)"
-                          % (T, iters, OPS[op], consts, init, got, closed), rep, dict(oracle="atomic-rmw", cls=op))
+            desc = ("%d threads `m += 1` next to %d threads `m %s %s`, %d times each" % (T // 2, T - T // 2, OPS[op[3:]], consts[0], iters)) \
+                if op.startswith("id:") else ("%d threads x %d times `m %s c` (c = %s) from %d" % (T, iters, OPS[op], consts, init))
+            res.violation("%s: final m = %s, every sequential order gives %s (updates were lost or torn)" % (desc, got, closed), rep,
+                          dict(oracle="atomic-rmw", cls=op))
         elif op == "add" and all(c == 1 for c in consts) and r["distinct"] is False:
             res.violation("%d threads x %d `m += 1`: two increments returned the same value" % (T, iters), rep, dict(oracle="atomic-rmw", cls="returned-value"))
         else:
